@@ -6,6 +6,7 @@ CONSTANTS
   MaxClaims = 1
   BuildUnderLock = FALSE
   NotifyAlways = FALSE
+  CoalesceRebuilds = FALSE
 INVARIANTS
   R_Claim
 CHECK_DEADLOCK FALSE
